@@ -10,7 +10,7 @@ from .env import JUNK, NULL
 
 I64MIN = np.iinfo(np.int64).min
 BIG = 2 ** 53          # any detour through float64 loses the +v
-TBASE = 10 ** 18       # ns since epoch (2001-09-09), far beyond float64 exactness
+TBASE = 2 ** 55      # ns since epoch (1971-02-21): beyond float64 exactness, and 250 of them still fit int64
 
 
 class Emb:
